@@ -38,6 +38,8 @@ type RWMutex struct {
 	w        *Thread
 	readers  map[*Thread]int
 	waitingW map[*Thread]bool
+	// number of threads parked just before a TryLock/TryRLock of this mutex
+	tryPending int
 }
 
 func (m *RWMutex) ident() int64 {
